@@ -46,6 +46,7 @@ def dispatch (line : String) : Verdict :=
   | "C08" :: "resp" :: args => c19 ("resp" :: args) r
   | "C08" :: "accept" :: args => c19 ("accept" :: args) r
   | "C08" :: args => handVerdict "C08" args r
+  | "C09" :: "hist" :: args => c14 ("hist" :: args) r
   | "C09" :: args => handVerdict "C09" args r
   | "C10" :: args => handVerdict "C10" args r
   | "C11" :: "sys" :: args => c01sys args r
